@@ -9,7 +9,7 @@ import json,sys
 src,dst=sys.argv[1],sys.argv[2]
 try: m=json.load(open(src+'/meta.json'))
 except Exception as e: m={"property":src.split('/')[-2],"summary":"(meta.json of the sub-agent unreadable: %s)"%e}
-m["produced_by"]="independent sub-agent (second round) given only the property text, the summaries of the first round's changes, and a scratch worktree"
+m["produced_by"]="independent sub-agent given only the property text, the summaries of earlier changes for that property, and a scratch worktree"
 m["validated_by_me"]={"worktree":"scratch git worktree of /repo HEAD","commands":["git apply patch.diff","cargo test --offline --no-fail-fast  -> 150 passed, 0 failed","cargo test --offline --test seed_demo (demo.rs copied to tests/) -> FAILED with the patch","same demo on the clean tree -> ok"]}
 json.dump(m,open(dst+'/meta.json','w'),indent=1)
 PY
